@@ -520,8 +520,6 @@ def add_measures_pre(d, first, last):
     tst = [x[0] for x in ts]
     if len(set(tst)) != len(tst):
         return False, None
-    if any(t != 0 and t > first and t not in tst for t, _ in qd):
-        return False, None
     ex = sorted([m[:2] for m in d["meas"]])
     if any(s >= e for s, e in ex):
         return False, None
@@ -545,10 +543,26 @@ def add_measures_pre(d, first, last):
         (b, bt), qq = in_force(t)
         return Fraction(4 * b * qq, bt)
 
-    cuts = sorted(set([first] + [t for t in tst if first < t < last] + [t for t, _ in qd if first < t < last]))
-    if any(barlen(t).denominator != 1 or barlen(t) <= 0 for t in cuts):
+    def bar_end(s):
+        """exact end of a full bar starting at s: the position where the quarter map has advanced by the bar's
+        length in quarters, walking through the quarter-duration changes (which need not coincide with signatures)"""
+        (b, bt), _ = in_force(s)
+        need = Fraction(4 * b, bt)  # quarters
+        pos = Fraction(s)
+        changes = sorted(t for t, _ in qd if t > s)
+        while True:
+            _, qq = in_force(pos)
+            nxt = changes[0] if changes else None
+            if nxt is None or (nxt - pos) / qq >= need:
+                return pos + need * qq
+            need -= Fraction(nxt - pos, 1) / qq
+            pos = Fraction(nxt)
+            changes.pop(0)
+
+    cuts = sorted(set([first] + [t for t in tst if first < t < last]))
+    if any(barlen(t) <= 0 for t in cuts):
         return False, None
-    return True, barlen
+    return True, bar_end
 
 
 def check_add_measures(d, before, after, first, last, out):
@@ -580,10 +594,12 @@ def check_add_measures(d, before, after, first, last, out):
         if any(s < t < e for t in tst):
             out.append("add_measures/length: added measure [%s,%s) is not cut by the signature change inside it (%s)" % (s, e, tst))
             return
-        bl = barlen(s)
-        if not (e - s == bl or (e - s < bl and e in stops)):
-            out.append("add_measures/length: added measure [%s,%s) has length %s, the signature in force implies %s and nothing cuts it at %s" % (
-                s, e, e - s, bl, e))
+        be = barlen(s)  # exact end of a full bar from s (a Fraction; not judged when it is off the division grid)
+        if be.denominator != 1:
+            return
+        if not (e == be or (e < be and e in stops)):
+            out.append("add_measures/length: added measure [%s,%s) ends at %s, the signature and divisions in force imply a bar end at %s and nothing cuts it at %s" % (
+                s, e, e, be, e))
             return
 
 
